@@ -32,7 +32,20 @@ for mf in sorted(glob.glob(os.path.join(root, "seeded", "*", "meta.json"))):
     also = [r["check"] for r in m["checks_run_against_it"]["results"] if r["exit"] == 0]
     if also:
         caught += " (quiet: %s)" % ", ".join(also)
+    if "only after" in (m.get("note") or ""):
+        caught += " †"
     lines.append("| `%s` | %s | %s | %s |" % (m["id"], m["property_broken"], m["needs_to_manifest"].replace("|", "/"), caught))
+n_dagger = sum(1 for mf in glob.glob(os.path.join(root, "seeded", "*", "meta.json")) if "only after" in (json.load(open(mf)).get("note") or ""))
+lines.append("\n† caught only after the harness was strengthened in response to that change (%d of %d; the `note` in its `meta.json` says what was missing and what was added). All others were caught by the harness as it stood when the change was written. `seeded/run_all.sh` re-runs the whole corpus against the current harness.\n" % (n_dagger, len(glob.glob(os.path.join(root, "seeded", "*", "meta.json")))))
+benign = sorted(glob.glob(os.path.join(root, "seeded", "benign", "*", "meta.json")))
+if benign:
+    lines.append("\n### 12.2b Independently written property-PRESERVING changes (false-alarm test)\n")
+    lines.append("Written by fresh sub-agents asked for a plausible maintainer change that keeps the property true while visibly changing something internal or unspecified (error wording and moment, buffer sizes and growth, number and size of read / write calls, where blocks are cut, optional codec frame fields, order of header checks ...). Every one of the ten quick checks was run against each; all must stay quiet.\n")
+    lines.append("| id | written against | what changes (the property does not speak of it) | checks run | alarms |")
+    lines.append("|---|---|---|---|---|")
+    for mf in benign:
+        m = json.load(open(mf))
+        lines.append("| `%s` | %s | %s | %s | %s |" % (m["id"], m["written_against"], m["what_changes"].replace("|", "/"), ", ".join(m["checks_quiet"]), ", ".join(m["alarms"]) if m["alarms"] else "none"))
 extra = os.path.join(root, "seeded", "LESSONS.md")
 if os.path.exists(extra):
     lines.append("\n### 12.3 What the seeded changes taught the harness\n")
